@@ -23,7 +23,7 @@ REQUIRED_COUNTERS = ["ops", "gap_fills", "foreign_refusals", "duplicate_attaches
 
 def plan(tier, seed):
     n = 4 if tier == "quick" else 16
-    per = 500 if tier == "quick" else 10000
+    per = 2500 if tier == "quick" else 10000
     return [{"tier": tier, "seed": env.shard_seed(i), "shard": i, "n_shards": n, "sequences": per} for i in range(n)]
 
 
